@@ -327,14 +327,17 @@ S("reopen_mode_via_local", [(ST, "            self._handle = open(self._path, mo
 # below add those dependent properties to the variants written before the dependency table.
 IDXDEP = ["C01", "C07"]
 RELABEL = {
-    "build_valid_early": (None, ["C01"]),
+    "build_valid_early": (None, ["C01", "C11"]),
     "insert_handler_does_not_invalidate": (None, IDXDEP),
-    "remove_swap_failure_keeps_index": (None, ["C06"] + IDXDEP),
-    "update_invalidates_after_swap": (None, ["C06"] + IDXDEP),
-    "temp_file_default_encoding": (None, ["C01", "C02", "C03", "C05"]),
-    "no_flush_before_copy": (None, ["C01", "C02", "C03"]),
-    "reopen_with_original_mode": (None, ["C01", "C02", "C03"]),
+    "remove_swap_failure_keeps_index": (None, ["C06", "C02"] + IDXDEP),
+    "update_invalidates_after_swap": (None, ["C06", "C03"] + IDXDEP),
+    "temp_file_default_encoding": (None, ["C01", "C02", "C03", "C05", "C06", "C07"]),
+    "no_flush_before_copy": (None, ["C01", "C02", "C03", "C06"]),
+    "reopen_with_original_mode": (None, ["C01", "C02", "C03", "C06"]),
+    "remove_swap_failure_keeps_index_": (None, []),
     "memory_update_helper_write_primary": (None, ["C12", "C06", "C13"] + IDXDEP),
+    "insert_reads_storage": (None, ["C15", "C12", "C06", "C01"]),
+    "insert_ungated": (None, ["C11", "C06", "C01"]),
     "reset_writes_data": (None, ["C15", "C13", "C06", "C11", "C02"] + IDXDEP),
     "len_counts_lines": (["C07"], []),
     "insert_time_position_after_append": (None, ["C07"]),
